@@ -407,6 +407,8 @@ def run(ctx: Ctx):
     _redundant_rollups(ctx)
     from .c16 import scenario_default_rule
     scenario_default_rule(ctx, "R10.6")
+    from .c16 import scenario_index_rule
+    scenario_index_rule(ctx, "R10.6", only={"Project._updateContainerTaskStatus", "TaskScenario.scheduleContainer", "TaskScenario.finishScheduling"})
     ctx.floor("R10.1", 6)
     ctx.floor("R10.5", 4)
     ctx.floor("R10.2", 6)
